@@ -90,6 +90,28 @@ def last_outcome(evs, label, before):
     return out
 
 
+def pop_outcome(evs, before):
+    """what the latest dequeue attempt before event `before` returned: the branch on ITS result, wherever on the path that
+    branch is taken (`let v = pop_front(); let next = next_send()...; match (v, next)` tests the result later)"""
+    pops = [e for e in evs if e.name == 'Q.pop_front' and e.idx < before]
+    if not pops:
+        return last_outcome(evs, 'pop', before)
+    p0 = pops[-1]
+    later = [e for e in evs if e.name == 'Q.pop_front' and e.idx > p0.idx]
+    end = later[0].idx if later else 10 ** 9
+    for e in evs:
+        if e.idx > p0.idx and e.idx < end and e.name == 'BR' and e.data['label'] == 'pop' \
+                and (e.data.get('synthetic') or p0.data.get('res') is None or contains(e.data.get('val'), p0.data['res'])):
+            return e.data['outcome']
+    return None
+
+
+def pop_event_of(evs, br):
+    """the dequeue attempt whose result the branch `br` tests"""
+    pops = [e for e in evs if e.name == 'Q.pop_front' and e.idx < br.idx]
+    return pops[-1] if pops else br
+
+
 def no_blocked_sender(evs, before, sec=None):
     """evidence, at event index `before`, that no sender is blocked: next_send() answered None, or the buffer was found
     empty on a channel with capacity > 0 (senders park only behind a FULL buffer and every dequeue promotes one: invariant
@@ -114,7 +136,7 @@ def r2(ctx):
             if e.name == 'SIGRECV':
                 res = e.data['res']
                 refill = any(x.name == 'Q.push_back' and x.data['args'] and x.data['args'][0] == res for x in evs)
-                lp = last_outcome(evs, 'pop', e.idx)
+                lp = pop_outcome(evs, e.idx)
                 ctx.oblige(1)
                 if refill:
                     if lp != 'Some':
@@ -133,7 +155,7 @@ def r3(ctx):
             if e.name == 'BR' and e.data['label'] == 'pop' and e.data['outcome'] == 'Some':
                 ctx.oblige(1, sample='%s [%s]: dequeue is followed by next_send and refill' % (b.key, p.signature()))
                 ctx.instance('%s pop:Some' % b.key)
-                ns = [x for x in evs if x.name == 'NEXT_SEND' and x.idx > e.idx and x.sec == e.sec]
+                ns = [x for x in evs if x.name == 'NEXT_SEND' and x.idx > pop_event_of(evs, e).idx and x.sec == e.sec]
                 if not ns:
                     ctx.violate(b.key, p, 'element dequeued but no next_send() in the same critical section: a blocked sender is not moved into the freed place (later senders overtake it; it may hang)', at=e.at)
                     continue
@@ -447,11 +469,23 @@ def r9(ctx):
             popbr = [e for e in evs if e.name == 'BR' and e.data['label'] == 'pop']
             if not popbr or popbr[-1].data['outcome'] != 'None':
                 ctx.violate(b.key, p, 'buffer loop is left without observing pop_front()==None (elements may be left behind)')
-            order = []  # sequence of ('q'|'s', value) expected to be pushed in this order
-            for e in pops:
-                got = [x for x in evs if x.name == 'BR' and x.data['label'] == 'pop' and x.idx > e.idx]
-                if got and got[0].data['outcome'] == 'Some':
-                    order.append(some_payload(e.data['res']))
+            # expected appends, in event order: each dequeued element, and each blocked sender's value that is delivered directly.
+            # A sender's value that is appended to the buffer tail instead (the refill step of `try_recv`, rule R2 demands that an
+            # element was just dequeued) reaches the vector later as a dequeued element.
+            refilled = set()
+            for e in evs:
+                if e.name == 'SIGRECV' and any(x.name == 'Q.push_back' and x.data['args'] and x.data['args'][0] == e.data['res']
+                                               and x.sec == e.sec for x in evs):
+                    refilled.add(e.data['res'])
+            order = []
+            for e in evs:
+                if e.name == 'Q.pop_front':
+                    got = [x for x in evs if x.name == 'BR' and x.data['label'] == 'pop' and x.idx > e.idx]
+                    if got and got[0].data['outcome'] == 'Some':
+                        order.append((e.idx, some_payload(e.data['res'])))
+                elif e.name == 'SIGRECV' and e.data['res'] not in refilled:
+                    order.append((e.idx, e.data['res']))
+            order = [v for _, v in sorted(order, key=lambda t: t[0])]
             nexts = [e for e in evs if e.name == 'NEXT_SEND']
             if not nexts:
                 ctx.violate(b.key, p, 'drain_into succeeds without looking at the blocked senders')
@@ -459,12 +493,20 @@ def r9(ctx):
             if nexts and (not nsbr or nsbr[-1].data['outcome'] != 'None'):
                 ctx.violate(b.key, p, 'blocked-sender loop is left without observing next_send()==None (senders may be left behind)')
             if nexts and popbr:
-                # every next_send after the final pop:None
-                lastpop_none = [e for e in popbr if e.data['outcome'] == 'None']
-                if not lastpop_none or nexts[0].idx < lastpop_none[-1].idx:
+                # a sender whose value goes straight to the vector is taken only when the buffer was just observed empty
+                for n in nexts:
+                    got = [x for x in evs if x.name == 'BR' and x.data['label'] == 'next_send' and x.idx > n.idx]
+                    if not (got and got[0].data['outcome'] == 'Some'):
+                        continue
+                    pay = some_payload(n.data['res'])
+                    sr = [x for x in evs if x.name == 'SIGRECV' and x.data['args'][0] == pay]
+                    if sr and sr[0].data['res'] in refilled:
+                        continue
+                    if last_outcome(evs, 'pop', n.idx) != 'None':
+                        ctx.violate(b.key, p, 'blocked senders are taken before the buffer is exhausted (order)', at=n.at)
+                        break
+                if not [e for e in popbr if e.data['outcome'] == 'None']:
                     ctx.violate(b.key, p, 'blocked senders are taken before the buffer is exhausted (order)', at=nexts[0].at)
-            for e in [x for x in evs if x.name == 'SIGRECV']:
-                order.append(e.data['res'])
             if pushed_vals != order:
                 ctx.violate(b.key, p, 'values appended to the vector (%d) are not exactly the dequeued elements followed by the blocked senders\' values, in order (%d)' % (len(pushed_vals), len(order)))
             # (a) count
